@@ -71,10 +71,20 @@ def check(case: Dict[str, Any]) -> Outcome:
     msg = parse_message(wire) if how == "parse" else JSONRPCRequest(**wire)
 
     h = _handler()
+    prior_sid: Optional[str] = None
+    if case.get("prior"):
+        # a handshake already happened on this connection; the host passes its session id along
+        first = parse_message({"jsonrpc": "2.0", "id": "first", "method": "initialize",
+                               "params": {"protocolVersion": case["prior"], "capabilities": {}, "clientInfo": {"name": "c0", "version": "0"}}})
+
+        async def go0():
+            return await h.handle_message(first)
+
+        _r0, prior_sid = run_virtual(go0)
     before = set(h.session_manager.list_sessions().keys())
 
     async def go():
-        return await h.handle_message(msg)
+        return await h.handle_message(msg, prior_sid)
 
     try:
         resp, sid = run_virtual(go)
@@ -85,7 +95,7 @@ def check(case: Dict[str, Any]) -> Outcome:
     is_str = isinstance(v, str)
     supported_req = is_str and v in sup
     out.nontrivial = not supported_req
-    out.classes = (
+    out.classes = (("re-initialize",) if case.get("prior") else ()) + (
         "req:" + ("absent" if v == ABSENT else ("supported" if supported_req else ("date" if is_str and len(v) == 10 else ("string" if is_str else "nonstring")))),
         "clientInfo" if client_info != ABSENT else "no-clientInfo",
     )
@@ -114,8 +124,17 @@ def check(case: Dict[str, Any]) -> Outcome:
     elif supported_req and answered != v:
         out.fail("supported-version-not-echoed", f"requested {v!r} answered {answered!r}")
     after = h.session_manager.list_sessions()
+    for k_, s_ in after.items():
+        if s_.protocol_version not in sup:
+            out.fail("session-records-unsupported-version", f"session {'(prior)' if k_ == prior_sid else '(new)'} carries {s_.protocol_version!r} after initialize({v!r})")
+            return out
     new = [s for k, s in after.items() if k not in before]
-    if len(new) != 1:
+    if prior_sid is not None and len(new) == 0:
+        # re-initialize may refresh the existing session instead of creating one
+        s0 = after.get(prior_sid)
+        if s0 is None or not strict_eq(s0.protocol_version, answered):
+            out.fail("session-version-differs-from-answered", f"re-initialize answered {answered!r}, session carries {getattr(s0, 'protocol_version', None)!r}")
+    elif len(new) != 1:
         out.fail("initialize-did-not-create-exactly-one-session", f"{len(new)} new sessions")
     else:
         s = new[0]
@@ -192,6 +211,8 @@ def job_dates(col: Collector, seed: int, tier: str, shard: int, nshards: int) ->
         if i % nshards != shard:
             continue
         case = {"version": v, "clientInfo": {"name": "c", "version": "1"} if i % 2 else ABSENT, "how": "parse" if i % 3 else "direct", "id": i}
+        if i % 5 == 0:
+            case["prior"] = ["2025-06-18", "2025-03-26", "2024-11-05"][i % 3]
         col.record(case, check(case))
     if shard == 0:
         col.exhaustive_parts.append("all 74,400 calendar date strings 1990-01-01..2189-12-31 as requested protocolVersion")
@@ -224,7 +245,10 @@ _versions = st.one_of(
 def cases(draw):
     v = draw(_versions)
     ci = draw(st.one_of(st.just(ABSENT), st.just({"name": "c", "version": "1"}), st.dictionaries(st.text(max_size=4), st.one_of(st.text(max_size=4), st.integers()), max_size=3)))
-    return {"version": v, "clientInfo": ci, "how": draw(st.sampled_from(["parse", "direct"])), "id": draw(st.one_of(st.integers(0, 5), st.sampled_from(["a", "0"])))}
+    case = {"version": v, "clientInfo": ci, "how": draw(st.sampled_from(["parse", "direct"])), "id": draw(st.one_of(st.integers(0, 5), st.sampled_from(["a", "0"])))}
+    if draw(st.integers(0, 2)) == 0:
+        case["prior"] = draw(st.sampled_from(["2025-06-18", "2025-03-26", "2024-11-05"]))
+    return case
 
 
 def job_hyp(col: Collector, seed: int, tier: str, shard: int, n: int) -> None:
